@@ -183,7 +183,9 @@ func VerifC19PortKey(nd int) {
 			port = port*10 + int(digits[i]-'0')
 		}
 		vAssume(port <= 65535)
-		return &RawNode{id: 1, addr: "127.0.0.1:" + digits, channel: &channel{}}, port
+		// the host is an IPv4 literal, a name, or a bracketed IPv6 literal (colons inside)
+		host := []string{"127.0.0.1", "node-a.example.org", "[::1]", "[fe80::1:2]"}[vChoice(tag+".host", 4)]
+		return &RawNode{id: 1, addr: host + ":" + digits, channel: &channel{}}, port
 	}
 	a, pa := mk("a")
 	b, pb := mk("b")
